@@ -4,6 +4,7 @@ import (
 	"encoding/json"
 	"fmt"
 	"os"
+	"path/filepath"
 	"strings"
 )
 
@@ -342,7 +343,21 @@ func oracleExtract(c *FsCase, jr *JobResult) []Problem {
 					ka = n[1]
 				}
 			}
-			if kb == "d" && ka != "d" {
+			// (lexical statement: with a symbolic link planted inside the destination — `b -> ..` and an entry `b/dest` —
+			// the plain extractor is led to the destination through the link; that is outside C02, and what the chrooted
+			// variant is for)
+			lexical := !worldHasSymlink(before)
+			for _, e := range c.Ents {
+				if e.Typ == "sym" {
+					lexical = false
+				}
+			}
+			for _, e := range c.Ents {
+				if n := filepath.Clean("/" + e.Name); n == "/" {
+					lexical = true // the entry names the destination itself, whatever else is in the tree
+				}
+			}
+			if kb == "d" && ka != "d" && lexical {
 				out = append(out, Problem{Kind: "oracle", Stream: "extract", Msg: fmt.Sprintf("C02: the destination directory itself was replaced (now %q; result %s): its entry in the parent directory, outside the destination, changed", ka, jr.Out)})
 			}
 		}
